@@ -134,7 +134,12 @@ boost::optional<H5Group> BlockHDF5::findEntityGroup(const nix::Identity &ident) 
 
 std::string BlockHDF5::resolveEntityId(const nix::Identity &ident) const {
     if (!ident.id().empty()) {
-        return ident.id();
+        // a name that looks like a UUID is classified as an id; entities are
+        // linked under their name, so only a string that is no such link is an id
+        boost::optional<H5Group> p = groupForObjectType(ident.type());
+        if (!p || !p->hasObject(ident.id())) {
+            return ident.id();
+        }
     }
 
     boost::optional<H5Group> g = findEntityGroup(ident);
